@@ -221,7 +221,7 @@ func c04errClass(err error) string {
 		sort.Strings(fs)
 		return list(tag("assemble", atoms(fs)))
 	}
-	return list(tag("?", atom(m))) // an error, but not one of the wordings known here: matches any error the model predicts
+	return list(tag("?unclassified?", atom(m))) // an error, but not one of the wordings known here: matches any error the model predicts
 }
 
 type c04config struct {
@@ -369,10 +369,10 @@ func c04run(g *Gen, c c04config, entry string, cls []string) {
 		fs := ""
 		if strings.Contains(ec, atom("unknown-filetype")) {
 			fs = tag("unspecified")
-		} else if strings.Contains(ec, atom("?")) {
+		} else if strings.Contains(ec, atom("?unclassified?")) {
 			// an error in an unknown wording: whether the files written so far are specified depends on
 			// which error it is; the files slot then matches anything
-			fs = tag("??", atoms(files))
+			fs = tag("??anything??", atoms(files))
 		} else {
 			sort.Strings(files)
 			var it []string
@@ -467,7 +467,7 @@ func fwErrS(err error) string {
 	if errors.As(err, &fe) {
 		return list(num(fe.id))
 	}
-	return list(tag("?", atom(err.Error())))
+	return list(tag("?unclassified?", atom(err.Error())))
 }
 
 func c13(g *Gen) {
